@@ -454,3 +454,5 @@ CHECKS["C14"]["harnesses"].append(dict(pkg="protocol", name="C14_textunits", bou
 CHECKS["C13"]["harnesses"].append(dict(pkg="protocol", name="C14_idnorm", bound="(also under C14) key / id arguments of text commands: strings of every length 0..64, all byte values, through ConvertArgId2LockId and ConvertString2LockKey: no crash (every run-time check of the converters, encoding/hex included, is an obligation)", flags=["-witness", "1"], reach=["end"]))
 
 _quick("C11", "C11_interleaved", "a counter key of capacity 5: holder A set it with INCR a; B goes pending with the require-ack flag and INCR b; A updates its hold with INCR c (applied, shown a+b); B's acknowledgement fails: the counter must be a+c for all 64-bit a, b, c (only the failed lock's own change is undone)", ["-witness", "1"], reach=[])
+
+_quick("C17", "C01_slowmap", "(also under C01) a held key whose manager lives in the ordinary key map, or shares one of 4 fast slots with a neighbour that is moved again: the key stays findable — the holder's unlock is accepted (reply LCount exact), a second request is refused, nothing is lost from the key table", ["-witness", "1"])
